@@ -215,6 +215,79 @@ def all_nodes(root):
 
 EML_NS = "https://eml.ecoinformatics.org/eml-2.2.0"
 
+EDIT_KINDS = ("attr_value", "attr_value", "attr_value", "content", "content", "drop_child", "add_child", "attr_add", "attr_del", "swap_children")
+
+
+def edit_in_place(rng, t, count=None, text_xor_children=False):
+    """The life of a document in an editor: the SAME node objects (same ids) get another attribute value, other content, a child
+    more or less - nothing that goes through a fresh object.  Returns the edits as replayable descriptors (see apply_edits)."""
+    desc = []
+    for _ in range(count or rng.randint(1, 3)):
+        nodes = all_nodes(t)
+        i = rng.randrange(len(nodes))
+        n = nodes[i]
+        kind = rng.choice(EDIT_KINDS)
+        if kind == "attr_value":
+            with_attrs = [j for j, x in enumerate(nodes) if x.attributes]
+            if not with_attrs:
+                continue
+            i = rng.choice(with_attrs)
+            n = nodes[i]
+            k = rng.choice(sorted(n.attributes, key=repr))
+            arg = [k, rng.choice(["verifNotInEnum", "", str(n.attributes[k]) + "x", "document", "system"])]
+        elif kind == "content":
+            if text_xor_children and n.children:
+                continue
+            arg = rng.choice([None, "", "edited text", "12", "-7.5", "nan", "https://example.org/edited", "2020-02-30", "13:45:00"])
+        elif kind == "drop_child":
+            if not n.children:
+                continue
+            arg = rng.randrange(len(n.children))
+        elif kind == "add_child":
+            if text_xor_children and n.content is not None:
+                continue
+            arg = [rng.choice(["title", "para", "verifUnknown", "creator", "value"]), rng.randint(0, len(n.children))]
+        elif kind == "attr_add":
+            arg = [rng.choice(["id", "scope", "system", "verifAttr"]), rng.choice(["document", "x"])]
+        elif kind == "attr_del":
+            if not n.attributes:
+                continue
+            arg = rng.choice(sorted(n.attributes, key=repr))
+        else:
+            if len(n.children) < 2:
+                continue
+            arg = rng.randrange(len(n.children) - 1)
+        d = [i, kind, arg]
+        apply_edits(t, [d])
+        desc.append(d)
+    return desc
+
+
+def apply_edits(t, desc):
+    from vlib.emlkit import Node
+    for i, kind, arg in desc:
+        nodes = all_nodes(t)
+        if i >= len(nodes):
+            continue
+        n = nodes[i]
+        if kind == "attr_value":
+            n.add_attribute(arg[0], arg[1])
+        elif kind == "content":
+            n.content = arg
+        elif kind == "drop_child":
+            if arg < len(n.children):
+                n.remove_child(n.children[arg])
+        elif kind == "add_child":
+            n.add_child(Node(arg[0]), min(arg[1], len(n.children)))
+        elif kind == "attr_add":
+            n.add_attribute(arg[0], arg[1])
+        elif kind == "attr_del":
+            if arg in n.attributes:
+                n.remove_attribute(arg)
+        elif kind == "swap_children":
+            if arg + 1 < len(n.children):
+                n.children[arg], n.children[arg + 1] = n.children[arg + 1], n.children[arg]
+
 
 def decorate_like_import(rng, t):
     """What a tree imported from a real document carries and a generated one lacks: text after elements (tails), a default
